@@ -124,7 +124,7 @@ CheckQuery(r) ==
 \* ---------------------------------------------------------------- C11 / C14: call histories on one Adf object
 TVv(vec) == [j \in DOMAIN vec |-> IF vec[j] = 1 THEN "T" ELSE IF vec[j] = 0 THEN "F" ELSE "U"]
 TVs(rs) == [i \in DOMAIN rs |-> TVv(rs[i])]
-SemKinds == {"grounded", "complete", "stable", "prefilter", "count_a", "count_b", "rew", "ng", "twoval"}
+SemKinds == {"grounded", "complete", "stable", "prefilter", "count_a", "count_b", "rew", "ng", "ngr", "twoval"}
 
 SemAnswerOK(c, tvs, G, CO, ST, TW) ==
   CASE c.c = "grounded" -> tvs = <<G>>
